@@ -342,10 +342,20 @@ pub fn where_of(seed: &Seed, e: &Edit, m: &[u8]) -> String {
         Some(u) => {
             let last_end = u.iter().rev().find(|x| x.name != "trailing").map(|x| x.end).unwrap_or(seed.signed.len());
             // an inserted byte gives the same mutant at every position of the run of equal bytes it joins: use the leftmost
+            // (leftmost or rightmost) position that is a unit boundary, if any
             let mut ins = e.start;
             if e.start == e.end && e.rep.len() == 1 {
-                while ins > 0 && seed.signed[ins - 1] == e.rep[0] {
-                    ins -= 1;
+                let (mut l, mut r) = (e.start, e.start);
+                while l > 0 && seed.signed[l - 1] == e.rep[0] {
+                    l -= 1;
+                }
+                while r < seed.signed.len() && seed.signed[r] == e.rep[0] {
+                    r += 1;
+                }
+                if u.iter().any(|x| x.start == l) {
+                    ins = l;
+                } else if u.iter().any(|x| x.start == r) {
+                    ins = r;
                 }
             }
             if p >= last_end {
